@@ -251,13 +251,34 @@ func checkModel(c modelCase) *vt.Fail {
 			step := fmt.Sprintf("%d:acquire(p%d,%s)", i, o.Path, o.Entry)
 			trail = append(trail, step)
 			var insideFail *vt.Fail
-			rel, fd, err := acquireFd(paths[o.Path], o.Entry, func() {
-				// call-scoped write entry: the lock must be held right now
-				ex, sh, perr := probe(paths[o.Path])
-				if perr == nil && (ex || sh) {
-					insideFail = vt.Failf("not-locked-inside-call", "inside the %s callback on p%d the file is not write-locked (exclusive probe %s, shared probe %s). history: %s", o.Entry, o.Path, okStr(ex), okStr(sh), strings.Join(trail, " "))
-				}
-			})
+			// nobody holds a conflicting lock, so the call returns at once - unless something that was never released
+			// (by an earlier call that failed, say) is in its way: then it sits there with no holder to wait for
+			type acq struct {
+				rel func() error
+				fd  int
+				err error
+			}
+			done := make(chan acq, 1)
+			go func() {
+				rel, fd, err := acquireFd(paths[o.Path], o.Entry, func() {
+					// call-scoped write entry: the lock must be held right now
+					ex, sh, perr := probe(paths[o.Path])
+					if perr == nil && (ex || sh) {
+						insideFail = vt.Failf("not-locked-inside-call", "inside the %s callback on p%d the file is not write-locked (exclusive probe %s, shared probe %s). history: %s", o.Entry, o.Path, okStr(ex), okStr(sh), strings.Join(trail, " "))
+					}
+				})
+				done <- acq{rel, fd, err}
+			}()
+			var rel func() error
+			var fd int
+			var err error
+			select {
+			case a := <-done:
+				rel, fd, err = a.rel, a.fd, a.err
+			case <-time.After(8 * time.Second):
+				ex, sh, _ := probe(paths[o.Path])
+				return vt.Failf("blocked-with-no-holder", "%s has not returned after 8s although nothing holds a conflicting lock (probes of the file: exclusive %s, shared %s). history: %s", step, okStr(ex), okStr(sh), strings.Join(trail, " "))
+			}
 			if err != nil && (o.Path == 3 || refusing[o.Entry]) {
 				// refusing to lock a directory is fine: then nothing is held
 				if f := expect(step + "(refused)"); f != nil {
@@ -708,7 +729,7 @@ func TestHandover(t *testing.T) {
 	rec.Class("handover:pairs", n)
 }
 
-var replayers = vt.Replayer{"model": vt.Decode(checkModel), "contention": vt.Decode(checkContention), "handover": vt.Decode(checkHandover)}
+var replayers = vt.Replayer{"model": vt.Decode(checkModel), "contention": vt.Decode(checkContention), "handover": vt.Decode(checkHandover), "flockfault": vt.Decode(checkFlockFault), "crosspath": vt.Decode(checkCrossPath), "failedlock": vt.Decode(checkFailedLockWhileHeld)}
 
 func TestReplay(t *testing.T) { vt.Replay(t, rec, replayers) }
 
